@@ -399,7 +399,9 @@ def _unique_flux(grid, shape, h, f):
 
 
 @ob("C05.thin_flux", cases=lambda tier: [dict(shape=s, method=m, form=f, num_iter=k) for s in ([(4,), (1, 3), (3, 1), (1, 1, 3)] if tier == "quick" else [(2,), (4,), (6,), (1, 3), (3, 1), (1, 5), (1, 1, 3), (1, 3, 1), (4, 1, 1)])
-                                         for m in ("newton", "bregman") for f in ("full", "pressure") for k in ((2,) if tier == "quick" else (1, 2, 3))],
+                                         for m in ("newton", "bregman") for f in ("full", "pressure") for k in ((2,) if tier == "quick" else (1, 2, 3))]
+    # every method OPTION: the Bregman penalty parameter L other than that of the Darcy initialisation (the system matrix changes between the initial and the first regular solve)
+    + [dict(shape=s, method="bregman", form=f, num_iter=2, L=L) for s in [(4,), (1, 3)] for f in ("full", "pressure", "flux_reduced") for L in (0.25, 3.0)],
     mods=["darsia.measure.wasserstein", "darsia.utils.fv", "darsia.utils.andersonacceleration"], stubs=STEP_STUBS, funcs=FUNCS, samples=(1, 2),
     budget={"timeout_ms": 30000, "paths": 64, "decide_ms": 1500, "arith_solver": 2, "wall_s": 400}, tol=1e-7,
     assumes=["splu(M).solve(b) returns x with M x = b exactly (direct back end)", "sparse-matrix model vf/symsparse.py (validated by C08.dep_sparse)",
@@ -407,9 +409,9 @@ def _unique_flux(grid, shape, h, f):
     cite="Where mass conservation leaves no freedom (one-dimensional and one-cell-thin grids) every method and mobility option returns the cost of the unique mass-conserving flux",
     note="the real _solve on a symbolic mass difference: the returned flux IS the cumulative-sum flux and the distance is the cost functional at that flux - all data, every positive "
          "mobility, every cost functional; per thin grid shape")
-def c05_thin_flux(ctx, shape, method, form, num_iter):
+def c05_thin_flux(ctx, shape, method, form, num_iter, L=1.0):
     grid, h = grid_of(shape)
-    w = solver(method, grid, base_options(formulation=form, linear_solver="direct", num_iter=num_iter, tol_residual=2.0 ** -10, tol_increment=2.0 ** -10, tol_distance=2.0 ** -10))
+    w = solver(method, grid, base_options(L=L, formulation=form, linear_solver="direct", num_iter=num_iter, tol_residual=2.0 ** -10, tol_increment=2.0 ** -10, tol_distance=2.0 ** -10))
     nf, nc = int(grid.num_faces), int(grid.num_cells)
     f = ctx.array("f", (nc - 1,), sample=(-1.0, 1.0))
     f = np.concatenate([f, [-sum(f)]])
